@@ -37,13 +37,13 @@ class Maintainer(Asset):
     '''
 
     def __init__(self, name = 'maintainer', capacity = float('inf'), value = 0):
-        super().__init__(name, value)
-
         self._capacity = capacity
         self._utilization = 0
-        self._env = None
         self._request_queue = []
         self._active_requests = []
+        # Registers with the System which will initialize the object
+        # immediately if the simulation is already in progress.
+        super().__init__(name, value)
 
     @property
     def total_capacity(self):
